@@ -205,12 +205,11 @@ def gen_c09(tier, rng):
             for j in range(rng.randint(1, 5)):
                 u = rng.choice(cfg["hosted"] + cfg["hosted"] + [0, 3, 9, 255])
                 reqs.append((u, rng.randint(0, 65535), rand_request(rng)))
-            if rng.random() < 0.12:
-                reqs.append((rng.choice(cfg["hosted"]), 5, bytes([8, 0, 4, 0, 0])))     # force listen only: last request
-                nconn = 1
+            if nconn == 1 and rng.random() < 0.15:
+                # force listen only: no response (6.8.1). Only as the very last request of a single-connection history,
+                # because what a server does *afterwards* (Twisted goes silent, the others do not) is not C09's subject
+                reqs.append((rng.choice(cfg["hosted"]), 5, bytes([8, 0, 4, 0, 0])))
             case.add_conn(build_frames(kind, reqs))
-            if nconn == 1:
-                break
         case.schedule = schedule_for(case, fe, rng, rng.choice(["frames", "frames", "whole", "random"]))
         pr = build_frames(kind, [(cfg["hosted"][0], 77, dm.pdu_read(3, 0, 2))])[0]
         traces.append(run_case(case, probe=None))
